@@ -169,7 +169,13 @@ def check_nodes(nodes, T, col, case, label):
                         u = py_unwrap(evaluate_ref(u))
                     except Exception:
                         u = ("<unevaluable>", repr(n.unwrapped))
-                if u != ud and u != d:
+                ude = ud
+                if isinstance(ud, FR):   # a wrapper over a string-valued alias unwraps to the reference to the alias body
+                    try:
+                        ude = py_unwrap(evaluate_ref(ud))
+                    except Exception:
+                        pass
+                if u != ud and u != d and u != ude:
                     viol("5-deferred-denotes-member", f"node #{i} {n!r}: its unwrapped form denotes {u!r}, the type it stands for unwraps to {ud!r}"[:500],
                          bucket="5-unwrapped-form")
             if not any(d == p or ud == p for p in plain_types) and not (d == T or d == py_unwrap(T) or ud == py_unwrap(T)):
